@@ -9,7 +9,7 @@ EXTENDS Ast, TLC, Json, IOUtils
 
 CONSTANT MaxLen
 
-Insts == {"m", "a", "b", "c"}       \* module-level, make(10), make(20), nested make2(30)
+Insts == {"m", "a", "b", "c", "d"}  \* module-level, make(10), make(20), nested make2(30), make3(): middle function shadows a captured name
 Fns == {"g", "i", "l"}              \* reader, modify-writer, local-writer
 Vias == {"direct", "shadow", "plain"}
 
@@ -38,13 +38,19 @@ Prologue ==
                       <<Let("x", V("start")),
                         Let("inner", Fn("inner", <<>>, "[" \o FT \o "...]", Three)),
                         Ret(Call(V("inner"), <<>>))>>)),
+      Let("make3", Fn("make3", <<>>, "[" \o FT \o "...]",
+                      <<Let("mid", Fn("mid", <<>>, "[" \o FT \o "...]",
+                                     <<Let("x", Bin("+", V("x"), I(1000)))>> \o Three)),
+                        Ret(Call(V("mid"), <<>>))>>)),
       Let("use", Fn("use", <<P("f", FT)>>, "int", <<Let("x", I(99)), Ret(Call(V("f"), <<>>))>>)),
       Let("use2", Fn("use2", <<P("f", FT)>>, "int", <<Ret(Call(V("f"), <<>>))>>)),
       Let("a", Call(V("make"), <<I(10)>>)), Let("b", Call(V("make"), <<I(20)>>)),
       Let("c", Call(V("make2"), <<I(30)>>)),
       Let("ag", Idx(V("a"), I(0))), Let("ai", Idx(V("a"), I(1))), Let("al", Idx(V("a"), I(2))),
       Let("bg", Idx(V("b"), I(0))), Let("bi", Idx(V("b"), I(1))), Let("bl", Idx(V("b"), I(2))),
-      Let("cg", Idx(V("c"), I(0))), Let("ci", Idx(V("c"), I(1))), Let("cl", Idx(V("c"), I(2)))>>
+      Let("cg", Idx(V("c"), I(0))), Let("ci", Idx(V("c"), I(1))), Let("cl", Idx(V("c"), I(2))),
+      Let("d", Call(V("make3"), <<>>)),
+      Let("dg", Idx(V("d"), I(0))), Let("di", Idx(V("d"), I(1))), Let("dl", Idx(V("d"), I(2)))>>
 
 FnVar(o) == V(o.inst \o o.f)
 OpStmt(o) ==
